@@ -583,7 +583,8 @@ def make_pair(reset=True):
 # kind -> (twoway, description); the thunk is built in `thunk_for`
 CALL_KINDS = ["ok", "boom", "late", "unsendable_arg", "badresult", "oneway", "big", "nomethod",
               "local_reject", "result_violation", "stall", "oneway_unsendable", "typed_ok", "mixed_dict",
-              "bytes_rejected", "float_rejected", "longint_rejected", "arg_rejected", "list_rejected"]
+              "bytes_rejected", "float_rejected", "longint_rejected", "arg_rejected", "list_rejected",
+              "obj_tuple_short", "obj_bytes_short", "obj_list_short"]
 
 
 def thunk_for(kind, rr, rr_typed, stalls):
@@ -601,6 +602,16 @@ def thunk_for(kind, rr, rr_typed, stalls):
     if kind == "arg_rejected":          # rejected by the CALLEE's schema while the call is being received
         r3 = getattr(rr, "rr3", None) or rr
         return True, lambda: r3.callRemote("short", a=b"y" * 40)
+    # results that pass every per-token check of the caller's result constraint but not its whole-object check
+    if kind == "obj_tuple_short":
+        from foolscap.schema import TupleOf
+        return True, lambda: rr.callRemote("ok", (1,), _resultConstraint=TupleOf(int, int))
+    if kind == "obj_bytes_short":
+        from foolscap.schema import ByteStringConstraint
+        return True, lambda: rr.callRemote("ok", b"bbb", _resultConstraint=ByteStringConstraint(10, minLength=5))
+    if kind == "obj_list_short":
+        from foolscap.schema import ListOf
+        return True, lambda: rr.callRemote("ok", [1], _resultConstraint=ListOf(int, 5, minLength=2))
     if kind == "ok":
         return True, lambda: rr.callRemote("ok", [1, 2, 3])
     if kind == "boom":
@@ -805,12 +816,83 @@ def scenario(calls, cutA, cutB, chunkA=7, chunkB=7, loss="lost", stall_release="
                 other_fires=[list(f) for f in X["watch"].fires] if X else [],
                 other_waiting=list(X["A"].waitingForAnswers.keys()) if X else [],
                 joint=rec.joint_trace(), tasters=rec.tasters(), max_index=(A.rootUnslicer.maxIndexLength, max_copyable_name()),
-                vocab=dict(A.incomingVocabulary))
+                vocab=dict(A.incomingVocabulary), registries=registries(A))
 
 
 def max_copyable_name():
     from foolscap import copyable
     return max(len(n) for n in copyable.CopyableRegistry.keys())
+
+
+def registries(A):
+    """-> (one-token opentypes of the real open registries, names of the real CopyableRegistry), as byte strings"""
+    from foolscap import copyable
+    known = sorted({k[0].encode() for reg in A.rootUnslicer.openRegistries for k in reg.keys() if len(k) == 1})
+    return known, sorted(n.encode() for n in copyable.CopyableRegistry.keys())
+
+
+# ---- handcrafted answer streams: the rare clauses of the receive path (ABORT / CLOSE in the index phase, two results, CLOSE
+# without a result, error closed early, wrong CLOSE count, primitives / unknown sequences at top level, NEG as request id,
+# VOCAB without a table, PING in the middle), each followed by a well-formed answer for the second request
+def _edge_streams():
+    O = lambda n: [n, 0x88]
+    C = lambda n: [n, 0x89]
+    AB = lambda n: [n, 0x8a]
+    I = lambda n: [n, 0x81]
+    S = lambda b: [len(b), 0x82] + list(b)
+    ans = lambda oc, rid, body: O(oc) + S(b"answer") + I(rid) + body + C(oc)
+    tail = ans(2, 2, I(7))
+    return {
+        "abort_in_index": O(0) + S(b"answer") + I(1) + O(1) + AB(1) + C(1) + C(0) + tail,
+        "close_in_index": O(0) + S(b"answer") + I(1) + O(1) + C(1) + C(0) + tail,
+        "abort_before_id": O(0) + S(b"answer") + AB(0) + C(0) + tail,
+        "abort_in_child": O(0) + S(b"answer") + I(1) + O(1) + S(b"list") + I(3) + AB(1) + I(4) + C(1) + C(0) + tail,
+        "two_results": O(0) + S(b"answer") + I(1) + I(5) + I(6) + C(0) + tail,
+        "close_without_result": O(0) + S(b"answer") + I(1) + C(0) + tail,
+        "error_close_early": O(0) + S(b"error") + I(1) + C(0) + tail,
+        "unknown_opentype": O(0) + S(b"answer") + I(1) + O(1) + S(b"nosuch") + I(3) + C(1) + C(0) + tail,
+        "unknown_copyable": O(0) + S(b"answer") + I(1) + O(1) + S(b"copyable") + S(b"no.such.Class") + I(3) + C(1) + C(0) + tail,
+        "wrong_close_count": O(0) + S(b"answer") + I(1) + I(5) + C(3) + tail,
+        "toplevel_int": I(5) + tail,
+        "unknown_top": O(0) + S(b"bogus") + I(1) + O(1) + S(b"list") + C(1) + C(0) + tail,
+        "neg_reqid": O(0) + S(b"answer") + [1, 0x83] + I(5) + C(0) + tail,
+        "vocab_token": O(0) + [3, 0x87] + I(1) + I(5) + C(0) + tail,
+        "ping_mid": O(0) + S(b"answer") + [0x8e] + I(1) + [5, 0x8e] + I(5) + C(0) + tail,
+        "unknown_id_then_known": ans(0, 9, I(5)) + ans(1, 1, O(3) + S(b"list") + I(1) + O(4) + S(b"list") + C(4) + C(3)) + tail,
+        "nested_wrong_count": O(0) + S(b"answer") + I(1) + O(1) + S(b"list") + I(3) + C(0) + tail,
+        "long_index_token": O(0) + S(b"answer") + I(1) + O(1) + S(b"x" * 40) + C(1) + C(0) + tail,
+        "int_as_index_token": O(0) + S(b"answer") + I(1) + O(1) + I(4) + C(1) + C(0) + tail,
+    }
+
+
+EDGE_STREAMS = _edge_streams()
+
+
+def edge_scenario(name, chunk):
+    """two pending callRemotes, then the handcrafted byte stream `name` delivered to the caller in chunks of `chunk` bytes,
+    then connectionLost.  -> the same dictionary as scenario()"""
+    A, B, tA, tB, t, t2, rr, rr_typed = make_pair()
+    bs = bytes(EDGE_STREAMS[name])
+    twoway = []
+    with recording(A) as rec:
+        for i in range(2):
+            tw, th = thunk_for("late", rr, rr_typed, [])
+            rec.issue(tw, th)
+            twoway.append(tw)
+        E.turn()
+        for i in range(0, len(bs), chunk):
+            A.dataReceived(bs[i:i + chunk])
+            E.turn()
+        pre_fires = [list(f) for f in rec.fires]
+        A.connectionLost(failure.Failure(ConnectionDone()))
+        E.turn()
+        rec.flush_open()
+        waiting = list(A.waitingForAnswers.keys())
+    return dict(trace=rec.trace, fires=rec.fires, twoway=twoway, waiting=waiting, errors=rec.errors, evq=list(rec.evq),
+                raised=rec.raised, fire_types=rec.fire_types, via_turn=list(rec.via_turn), finish_why=rec.finish_why,
+                pre_fires=pre_fires, joint=rec.joint_trace(), tasters=rec.tasters(),
+                max_index=(A.rootUnslicer.maxIndexLength, max_copyable_name()), vocab=dict(A.incomingVocabulary),
+                registries=registries(A))
 
 
 RETURNS = ("ok", "big", "typed_ok", "mixed_dict")
